@@ -235,6 +235,89 @@ def poolStep (s : DState) (pl : Pool) (r : Nat → Rat) : List Nat :=
   else if pl.src.isEmpty || pl.dst.isEmpty then []
   else pl.dst.filter (fun u => Gen.bernoulliAccept (r u) (poolP s pl u))
 
+
+/-! ### Group selectors of mixing pools (`AgeGroup`, `MixingPool.get_uids`, `MixingPool.remove_uids`)
+
+`MixingPool.step` first resolves its `src` / `dst` parameters into uid lists.  A parameter is `None` (all active
+agents), a callable of the sim (an `AgeGroup` object with its cache, or any user function), or an explicit `ss.uids`
+array fixed at construction from which `remove_uids` drops the dead.  The band predicates and the recompute test of
+`AgeGroup.__call__` are the regenerated `Gen.ageGroupInLow / InHigh / Recompute`. -/
+
+/-- What a group selector reads from the sim: the active uids (`people.auids`) and the age by uid. -/
+structure People where
+  auids : List Nat
+  age : Nat → Rat
+
+/-- An `ss.AgeGroup` object: constructor arguments and the mutable cache. -/
+structure AgeGroup where
+  low : Rat
+  high : Option Rat
+  doCache : Bool := Gen.ageGroupDefaultDoCache
+  uids : Option (List Nat) := none
+  tiCache : Int := Gen.ageGroupInitTiCache
+
+/-- `(age >= low) & (age < high)`, the second factor only `if self.high is not None` -/
+def inBand (low : Rat) (high : Option Rat) (a : Rat) : Bool :=
+  Gen.ageGroupInLow a low && (match high with | none => true | some h => Gen.ageGroupInHigh a h)
+
+/-- `ss.uids(in_group)`: the active agents whose age lies in the band, ascending like `auids` -/
+def members (low : Rat) (high : Option Rat) (p : People) : List Nat :=
+  p.auids.filter (fun u => inBand low high (p.age u))
+
+/-- `AgeGroup.__call__(sim)` at `sim.ti = ti`: new cache state and the returned uids -/
+def AgeGroup.call (g : AgeGroup) (ti : Int) (p : People) : AgeGroup × List Nat :=
+  if Gen.ageGroupRecompute g.doCache g.tiCache ti g.uids.isNone then
+    ({ g with uids := some (members g.low g.high p), tiCache := ti }, members g.low g.high p)
+  else (g, g.uids.getD [])
+
+/-- Successive calls of one `AgeGroup` object; `P ti` is the population at the time of the call. -/
+def AgeGroup.calls (P : Int → People) : AgeGroup → List Int → List (List Nat)
+  | _, [] => []
+  | g, ti :: tis => (g.call ti (P ti)).2 :: AgeGroup.calls P (g.call ti (P ti)).1 tis
+
+/-- A `src` / `dst` parameter of a mixing pool. -/
+inductive Group where
+  | all                                  -- `None`: `sim.people.auids`
+  | age (g : AgeGroup)                   -- callable: an `AgeGroup`
+  | fn (f : People → List Nat)           -- callable: any user function of the sim
+  | explicit (l : List Nat)              -- `ss.uids` given at construction
+
+/-- `MixingPool.get_uids` -/
+def Group.resolve : Group → Int → People → Group × List Nat
+  | .all, _, p => (.all, p.auids)
+  | .age g, ti, p => (.age (g.call ti p).1, (g.call ti p).2)
+  | .fn f, _, p => (.fn f, f p)
+  | .explicit l, _, _ => (.explicit l, l)
+
+/-- What the selector denotes on the population `p` (the destination / source group of the property). -/
+def Group.spec : Group → People → List Nat
+  | .all, p => p.auids
+  | .age g, p => members g.low g.high p
+  | .fn f, p => f p
+  | .explicit l, p => l.filter (fun u => p.auids.contains u)
+
+/-- `MixingPool.remove_uids`: explicit uid arrays shed the removed agents, everything else is untouched -/
+def Group.remove (dead : List Nat) : Group → Group
+  | .explicit l => .explicit (l.filter (fun u => !dead.contains u))
+  | g => g
+
+structure PoolG where
+  src : Group
+  dst : Group
+  beta : Rat
+  contacts : Nat → Rat
+
+/-- `MixingPool.step` for one disease including the resolution of the groups (`src` first, then `dst`). -/
+def poolStepG (s : DState) (pg : PoolG) (ti : Int) (p : People) (r : Nat → Rat) : PoolG × List Nat :=
+  let rs := pg.src.resolve ti p
+  let rd := pg.dst.resolve ti p
+  ({ pg with src := rs.1, dst := rd.1 },
+   poolStep s { src := rs.2, dst := rd.2, beta := pg.beta, contacts := pg.contacts } r)
+
+/-- `MixingPool.remove_uids` on both parameters -/
+def PoolG.remove (pg : PoolG) (dead : List Nat) : PoolG :=
+  { pg with src := pg.src.remove dead, dst := pg.dst.remove dead }
+
 /-! ### `SexualNetwork.net_beta` for arbitrary `acts·dt` (IEEE doubles, same source expression) -/
 
 /-- the source expression of `SexualNetwork.net_beta`, evaluated in doubles with `Float.pow` -/
